@@ -32,6 +32,8 @@ def main(tier):
         scns.append(dops.Scn("move", tdev=tdev, reldir=(tdev == "same"), nfiles=4, threads=4, size=20000))
         for names in hostile:
             scns.append(dops.Scn("move", tdev=tdev, names=names, size=1000))
+    scns.append(dops.Scn("move", label="dotdot"))
+    scns.append(dops.Scn("move", tdev="other", label="dotdot", size=70000))
     scns.append(dops.Scn("move", tinside=True))
     scns.append(dops.Scn("move", tinside=True, collision="file"))
     scns.append(dops.Scn("move", nolock=True, collision="file"))
